@@ -46,18 +46,36 @@ pub struct MF {
     pub kind: MergeKind,
     pub log: Option<CallLog>,
     pub ctl: Option<Shared>,
+    /// every value carries a 2-byte tag derived from ITS key; the merge function refuses a call whose `key` argument
+    /// does not match the values it is given (an oracle inside the user-supplied component)
+    pub verify_key: bool,
+}
+
+/// two bytes derived from a key
+pub fn key_tag(key: &[u8]) -> [u8; 2] {
+    let h = crate::common::hash_of(&key);
+    [(h >> 8) as u8 | 1, h as u8]
+}
+
+pub fn tagged(key: &[u8], v: &[u8]) -> Vec<u8> {
+    let mut out = key_tag(key).to_vec();
+    out.extend_from_slice(v);
+    out
 }
 
 impl MF {
     pub fn plain(kind: MergeKind) -> MF {
-        MF { kind, log: None, ctl: None }
+        MF { kind, log: None, ctl: None, verify_key: false }
+    }
+    pub fn verifying(kind: MergeKind) -> MF {
+        MF { kind, log: None, ctl: None, verify_key: kind != MergeKind::SumU32 }
     }
     pub fn logged(kind: MergeKind) -> (MF, CallLog) {
         let log: CallLog = Rc::new(RefCell::new(Vec::new()));
-        (MF { kind, log: Some(log.clone()), ctl: None }, log)
+        (MF { kind, log: Some(log.clone()), ctl: None, verify_key: false }, log)
     }
     pub fn with_ctl(kind: MergeKind, ctl: Shared) -> MF {
-        MF { kind, log: None, ctl: Some(ctl) }
+        MF { kind, log: None, ctl: Some(ctl), verify_key: false }
     }
 }
 
@@ -102,6 +120,19 @@ impl grenad::MergeFunction for MF {
         }
         if let Some(log) = &self.log {
             log.borrow_mut().push((key.to_vec(), values.iter().map(|v| v.to_vec()).collect()));
+        }
+        if self.verify_key {
+            let tag = key_tag(key);
+            let ok = values.iter().all(|v| match self.kind {
+                MergeKind::Concat => parse_records(v).map_or(false, |rs| rs.iter().all(|r| r.len() >= 2 && r[..2] == tag)),
+                _ => v.len() >= 2 && v[..2] == tag,
+            });
+            if !ok {
+                return Err(MergeErr(format!(
+                    "KEY-MISMATCH: the merge function was called with key {} but (some of) its values belong to another key",
+                    crate::common::brief(key)
+                )));
+            }
         }
         Ok(match self.kind {
             MergeKind::Concat => Cow::Owned(values.iter().flat_map(|v| v.iter().copied()).collect()),
